@@ -483,7 +483,11 @@ func (s *TxStore) ExistsTx(tx mwdb.ReadTransaction, out *wire.OutPoint) (mtx *wi
 		block: &BlockMeta{},
 	}
 
-	_, credKey, err := existsUnspent(nsUnspent, s.ksmgr.CurrentKeystore().Name(), out)
+	am := s.ksmgr.CurrentKeystore()
+	if am == nil {
+		return nil, nil, keystore.ErrCurrentKeystoreNotFound
+	}
+	_, credKey, err := existsUnspent(nsUnspent, am.Name(), out)
 	if err != nil {
 		return nil, nil, err
 	}
@@ -556,7 +560,11 @@ func (s *TxStore) ExistsUtxo(tx mwdb.ReadTransaction, out *wire.OutPoint) (flags
 	}
 
 	// unspent exists
-	_, credKey, err := existsUnspent(nsUnspent, s.ksmgr.CurrentKeystore().Name(), out)
+	am := s.ksmgr.CurrentKeystore()
+	if am == nil {
+		return nil, keystore.ErrCurrentKeystoreNotFound
+	}
+	_, credKey, err := existsUnspent(nsUnspent, am.Name(), out)
 	if err != nil {
 		return nil, err
 	}
